@@ -21,6 +21,7 @@ import (
 	"sync"
 	"sync/atomic"
 	"testing"
+	"time"
 
 	corev1 "k8s.io/api/core/v1"
 	"k8s.io/apimachinery/pkg/api/resource"
@@ -45,9 +46,9 @@ func (o c06cOp) String() string {
 
 func TestVerifC06ConcurrentFirstTouch(t *testing.T) {
 	rec := vk.New(t, "C06", "concurrentFirstTouch")
-	nodesPerCase := 150
+	nodesPerCase := 100
 	if vk.Thorough() {
-		nodesPerCase = 400
+		nodesPerCase = 300
 	}
 	rapid.Check(t, func(t *rapid.T) {
 		c := rec.Begin()
@@ -155,8 +156,14 @@ func TestVerifC06ConcurrentFirstTouch(t *testing.T) {
 				}()
 				for i, name := range names {
 					atomic.AddInt64(&arrived, 1)
-					for atomic.LoadInt64(&arrived) < int64(workers)*int64(i+1) {
-						runtime.Gosched()
+					// spin briefly (tight common start), then give the core back to the OS: on an oversubscribed machine a pure
+					// spin barrier makes every round cost scheduler quanta
+					for spins := 0; atomic.LoadInt64(&arrived) < int64(workers)*int64(i+1); spins++ {
+						if spins < 2000 {
+							runtime.Gosched()
+						} else {
+							time.Sleep(20 * time.Microsecond)
+						}
 					}
 					for _, op := range scripts[w] {
 						switch op.Kind {
